@@ -32,8 +32,26 @@ pub fn physical(contents: &[u8], ctype: u8) -> Vec<u8> {
 fn lcp(a: &[u8], b: &[u8]) -> usize {
     a.iter().zip(b.iter()).take_while(|(x, y)| x == y).count()
 }
-/// block contents with random restart subset and sharing
+/// a header number, occasionally (when `inflate`) encoded as `n + k * 2^32`: a value whose low 32 bits
+/// are the right number but which is far beyond the block (a validator that truncates to 32 bits would
+/// accept it, the iterator would then index out of range)
+fn header_num(rng: &mut Rng, n: usize, inflate: bool, out: &mut Vec<u8>) {
+    if inflate && rng.chance(1, 6) {
+        let k = match rng.below(3) {
+            0 => 1usize,
+            1 => rng.range(1, 255),
+            _ => 1usize << rng.range(0, 30),
+        };
+        varint(n.wrapping_add(k << 32), out);
+    } else {
+        varint(n, out);
+    }
+}
 pub fn block_contents(rng: &mut Rng, es: &[(Vec<u8>, Vec<u8>)], free: bool) -> Vec<u8> {
+    block_contents_x(rng, es, free, false)
+}
+/// block contents with random restart subset and sharing
+pub fn block_contents_x(rng: &mut Rng, es: &[(Vec<u8>, Vec<u8>)], free: bool, inflate: bool) -> Vec<u8> {
     let mut b = vec![];
     let mut restarts: Vec<u32> = vec![];
     let mut prev: Vec<u8> = vec![];
@@ -50,9 +68,9 @@ pub fn block_contents(rng: &mut Rng, es: &[(Vec<u8>, Vec<u8>)], free: bool) -> V
                 m
             }
         };
-        varint(shared, &mut b);
-        varint(k.len() - shared, &mut b);
-        varint(v.len(), &mut b);
+        header_num(rng, shared, inflate, &mut b);
+        header_num(rng, k.len() - shared, inflate, &mut b);
+        header_num(rng, v.len(), inflate, &mut b);
         b.extend_from_slice(&k[shared..]);
         b.extend_from_slice(v);
         prev = k.clone();
@@ -143,7 +161,8 @@ pub fn encode_table(rng: &mut Rng, cmp: &CmpKind, es: &[(Vec<u8>, Vec<u8>)], mut
     let mut blocks = vec![];
     let mut index: Vec<(Vec<u8>, Vec<u8>)> = vec![];
     for (bi, part) in parts.iter().enumerate() {
-        let mut c = block_contents(rng, part, true);
+        let inflate = mutate && rng.chance(1, 3);
+        let mut c = block_contents_x(rng, part, true, inflate);
         if mutate && rng.chance(1, 3) {
             damage(rng, &mut c);
         }
